@@ -453,8 +453,13 @@ class Translator:
             if n[0] != "num" or n[1] < 1:
                 self.err(ln, "fp2_batched_inv with non-literal length")
             n = n[1]
-            x = [self.read(base + (i,), ln=ln) for i in range(n)]
+            x0 = [self.read(base + (i,), ln=ln) for i in range(n)]
             self.ntmp += 1
+            # repaired routine (fix 17faca0): z[i] = is_zero(x[i]); x[i] = select(x[i], one, z[i]); product chain;
+            # x[i] = select(x[i], zero, z[i])
+            x = ["binv%d_x_%d%s" % (self.ntmp, i, self.sfx) for i in range(n)]
+            for i in range(n):
+                self.lines.append("let %s := if %s = 0 then 1 else %s" % (x[i], x0[i], x0[i]))
             t1 = ["binv%d_t1_%d%s" % (self.ntmp, i, self.sfx) for i in range(n)]
             t2 = ["binv%d_t2_%d%s" % (self.ntmp, i, self.sfx) for i in range(n)]
             self.lines.append("let %s := %s" % (t1[0], x[0]))
@@ -463,9 +468,9 @@ class Translator:
             self.lines.append("let %s := %s⁻¹" % (t2[0], t1[n - 1]))
             for i in range(1, n):
                 self.lines.append("let %s := %s * %s" % (t2[i], t2[i - 1], x[n - i]))
-            self.write(base + (0,), t2[n - 1], ln)
+            self.write(base + (0,), "(if %s = 0 then 0 else %s)" % (x0[0], t2[n - 1]), ln)
             for i in range(1, n):
-                self.write(base + (i,), "%s * %s" % (t1[i - 1], t2[n - i - 1]), ln)
+                self.write(base + (i,), "(if %s = 0 then 0 else %s * %s)" % (x0[i], t1[i - 1], t2[n - i - 1]), ln)
             return
         if f in ("assert", "printf", "fp2_print"):
             if f == "printf":
